@@ -361,6 +361,36 @@ def const_lookup_order(ctx):
                     f'the wrong value', f.file, f.line)
 
 
+def subscript_rounding(ctx):
+    """The machine rounds a fractional array subscript (conv to LONG is
+    int(round(x))); the evaluator must convert the same way."""
+    repo = ctx.repo
+    rule = 'C13.subscripts-rounded-like-the-machine'
+    ctx.rule(rule, 'every int(...) conversion in qvm/eval.py is applied to '
+             'round(...), as the conv handlers of the CPU do for a float '
+             'subscript (truncation would select a different element)')
+    n = 0
+    for f in repo.all_functions():
+        if f.module.name != 'qvm.eval':
+            continue
+        for c in walk_shallow(f.node):
+            if isinstance(c, ast.Call) and dotted(c.func) == 'int' and \
+                    len(c.args) == 1:
+                n += 1
+                a = c.args[0]
+                ok = isinstance(a, ast.Call) and dotted(a.func) == 'round'
+                construct = f'{f.file}:{f.qualname}:int()'
+                ctx.instance(rule, construct, sample={'rounds': ok})
+                if not ok:
+                    ctx.finding(rule, construct,
+                                f'{f.qualname} converts with '
+                                f'`{unparse(c)[:50]}` (truncation); the '
+                                f'machine rounds a fractional subscript, so '
+                                f'`print a(x!)` shows a different element '
+                                f'than the program reads', f.file, c.lineno)
+    ctx.floor('int() conversions in qvm/eval.py', n, 1)
+
+
 def segment_index_pairs(ctx):
     """A storage location is a (segment, index) pair.  Wherever the
     evaluator rebinds the segment it reads from (following a reference) it
@@ -451,6 +481,7 @@ def run(ctx):
     shared_layout(ctx)
     const_lookup_order(ctx)
     segment_index_pairs(ctx)
+    subscript_rounding(ctx)
     from .. import strides
     strides.check_reader_side(ctx, 'C13',
                               4 if ctx.tier == 'thorough' else 3)
